@@ -1043,9 +1043,14 @@ def n5_unroll_tables(fnode, keep=()):
             if stores.get(v) == 1 and v not in keep:
                 local_tables[v] = st
 
-    def table_of(it):
-        if isinstance(it, (ast.Tuple, ast.List)) and \
-                getattr(it, '_pv_new', False):
+    def table_of(it, target=None):
+        if isinstance(it, (ast.Tuple, ast.List)) and (
+                getattr(it, '_pv_new', False) or (
+                    target is not None and not any(
+                        isinstance(x, ast.Name) and x.id in keep
+                        for x in ast.walk(target)))):
+            # a literal table that a new constant named, or a loop whose
+            # variables the pinned tree does not have
             return it, None
         if isinstance(it, ast.Name) and it.id in local_tables:
             uses = sum(1 for x in _own_walk(fnode)
@@ -1058,7 +1063,7 @@ def n5_unroll_tables(fnode, keep=()):
     def unroll(st):
         if not isinstance(st, ast.For) or st.orelse:
             return None
-        tab, defn = table_of(st.iter)
+        tab, defn = table_of(st.iter, st.target)
         if tab is None or not tab.elts or len(tab.elts) > 12 or \
                 len(st.body) > 10:
             return None
